@@ -120,6 +120,7 @@ class Engine:
         self.cov = {}               # (file, lineno) -> set of arms reached ('T','F')
         self.returns = set()        # (file, lineno) of return statements reached
         self.feas_cache = {}
+        self.const_override = {}     # {(function name, int constant): replacement} -- a documented cut (e.g. size thresholds)
         self.inline_policy = None    # abstract mode: callable(fn, depth) -> bool (inline) ; else stubbed as may-raise Unknown
         self.stubbed = set()
         self.lenient = []           # abstract mode: constructs replaced by Unknown
@@ -1242,6 +1243,10 @@ class Engine:
         return rec(st, 0, [])
 
     def ex_Constant(self, st, node, fr):
+        if self.const_override:
+            key = (getattr(fr.func, '__name__', '?'), node.value)
+            if key in self.const_override and type(node.value) is int:
+                return [(st, NORMAL, self.const_override[key])]
         return [(st, NORMAL, node.value)]
 
     def ex_Name(self, st, node, fr):
